@@ -464,6 +464,9 @@ class _LoopIdioms(ast.NodeTransformer):
                     continue
                 v = st.value
                 lazy = isinstance(v, ast.GeneratorExp) or (isinstance(v, ast.Call) and (_dotted(v.func) or '').rsplit('.', 1)[-1] in ('takewhile', 'dropwhile', 'map', 'filter', 'islice', 'chain', 'partial'))
+                if not lazy and isinstance(v, ast.Call) and i + 1 < len(stmts) and isinstance(stmts[i + 1], (ast.For, ast.AsyncFor)) and isinstance(stmts[i + 1].iter, ast.Name) and stmts[i + 1].iter.id == st.targets[0].id:
+                    # `it = f(..)` directly followed by `for x in it:` (the only use): nothing runs in between
+                    lazy = True
                 if not lazy:
                     continue
                 name = st.targets[0].id
@@ -1841,8 +1844,8 @@ class Normalizer:
             return None
         def _escapes(stmts, in_loop=False):
             for st in stmts:
-                if isinstance(st, ast.Return):
-                    return True
+                # (a `return` in BODY leaves the consuming function in both forms: the generator is closed, its
+                # `finally` blocks run - as they do when the return sits inside the expanded body)
                 if isinstance(st, (ast.Break, ast.Continue)) and not in_loop:
                     return True
                 if isinstance(st, FuncNode + (ast.ClassDef,)):
@@ -2185,6 +2188,13 @@ class Normalizer:
                         if not (tnames & vnames):
                             new = [ast.copy_location(ast.Assign(targets=[t], value=v), st) for t, v in zip(st.targets[0].elts, st.value.elts)]
                             blk[i : i + 1] = new
+                            changed = True
+                            continue
+                        # identity components drop out, the others are plain assignments: (x, e) = (x, <expr not using e>)
+                        pairs_ = list(zip(st.targets[0].elts, st.value.elts))
+                        moving = [(t, v) for t, v in pairs_ if not (isinstance(v, ast.Name) and v.id == t.id)]
+                        if len(moving) < len(pairs_) and not ({t.id for t, _ in moving} & vnames):
+                            blk[i : i + 1] = [ast.copy_location(ast.Assign(targets=[t], value=v), st) for t, v in moving] or [ast.copy_location(ast.Pass(), st)]
                             changed = True
                             continue
                         if all(isinstance(v, ast.Name) for v in st.value.elts):
@@ -3398,6 +3408,182 @@ class Normalizer:
             return True
         return x == y and y not in rm
 
+    def _record_methods_to_functions(self):
+        """New methods / properties added to the small record classes of a module (NamedTuple, dataclass) and used on
+        arbitrary receivers (`chunk.size`, `file.grow(n)`, `state.begin_file(p)`) become module-level helpers taking the
+        receiver as first argument, so that the ordinary helper expansion applies:  X.m(a) -> _rm_m(X, a) ; X.p -> _rm_p(X).
+        Only for names that are new to the module (no inventory function, field or constant has them) and whose
+        definitions agree between the classes that have them."""
+        for rel, tree in self.trees.items():
+            inv = self.inv.get(rel)
+            if inv is None:
+                continue
+            known_last = {q.rsplit('.', 1)[-1] for q in inv['functions']} | {q.rsplit('.', 1)[-1] for q in inv['constants']}
+            recs = []
+            for c in tree.body:
+                if not isinstance(c, ast.ClassDef):
+                    continue
+                is_rec = any((_dotted(b) or '').rsplit('.', 1)[-1] in ('NamedTuple', 'TypedDict') for b in c.bases) or any((_dotted(d.func if isinstance(d, ast.Call) else d) or '').rsplit('.', 1)[-1] == 'dataclass' for d in c.decorator_list)
+                if is_rec:
+                    recs.append(c)
+            if not recs:
+                continue
+            fields = {st.target.id for c in recs for st in c.body if isinstance(st, ast.AnnAssign) and isinstance(st.target, ast.Name)}
+            groups = {}
+            for c in recs:
+                for st in c.body:
+                    if isinstance(st, ast.FunctionDef) and f'{c.name}.{st.name}' not in inv['functions'] and not (st.name.startswith('__') and st.name.endswith('__')):
+                        groups.setdefault(st.name, []).append((c, st))
+            for name, defs in groups.items():
+                if name in known_last or name in fields:
+                    continue
+                kinds = set()
+                for c, st in defs:
+                    decs = [(_dotted(d) or '') for d in st.decorator_list]
+                    if decs == ['property']:
+                        kinds.add('property')
+                    elif not decs:
+                        kinds.add('method')
+                    else:
+                        kinds.add('other')
+                if len(kinds) != 1 or 'other' in kinds:
+                    continue
+                kind = kinds.pop()
+                a0 = defs[0][1].args
+                if a0.vararg or a0.kwarg or not (a0.posonlyargs + a0.args):
+                    continue
+
+                def norm(st):
+                    cp = copy.deepcopy(st)
+                    cp.decorator_list = []
+                    cp.returns = None
+                    first = (cp.args.posonlyargs + cp.args.args)[0].arg
+                    for a_ in cp.args.posonlyargs + cp.args.args + cp.args.kwonlyargs:
+                        a_.annotation = None
+                    if first != 'self':
+                        cp.body = [_Subst({first: 'self'}, {}).visit(b) for b in cp.body]
+                        (cp.args.posonlyargs + cp.args.args)[0].arg = 'self'
+                    cp.body = [b for b in cp.body if not (isinstance(b, ast.Expr) and isinstance(b.value, ast.Constant) and isinstance(b.value.value, str))] or [ast.Pass()]
+                    return cp
+
+                normed = [norm(st) for _, st in defs]
+                if len({ast.dump(n.args) + ''.join(ast.dump(b) for b in n.body) for n in normed}) != 1:
+                    continue
+                # uses
+                class_nodes = {id(st) for _, st in defs}
+                uses, bad = [], False
+                parents = {}
+                for n in ast.walk(tree):
+                    for ch in ast.iter_child_nodes(n):
+                        parents[id(ch)] = n
+                for n in ast.walk(tree):
+                    if isinstance(n, ast.Attribute) and n.attr == name:
+                        if not isinstance(n.ctx, ast.Load):
+                            bad = True
+                            break
+                        par = parents.get(id(n))
+                        if kind == 'method' and not (isinstance(par, ast.Call) and par.func is n):
+                            bad = True
+                            break
+                        uses.append((n, par))
+                if bad or not uses:
+                    continue
+                fname = f'_rm_{name}'
+                if any(isinstance(x, ast.Name) and x.id == fname for x in ast.walk(tree)):
+                    continue
+                fn = normed[0]
+                fn.name = fname
+                for c, st in defs:
+                    c.body = [b for b in c.body if b is not st] or [ast.Pass()]
+                for n, par in uses:
+                    if kind == 'property':
+                        new = ast.Call(func=ast.Name(id=fname, ctx=ast.Load()), args=[n.value], keywords=[])
+                        self._replace_everywhere(tree, n, ast.copy_location(new, n))
+                    else:
+                        par.args = [n.value] + par.args
+                        par.func = ast.copy_location(ast.Name(id=fname, ctx=ast.Load()), n)
+                # put the helper right after the last record class
+                idx = max(i for i, b in enumerate(tree.body) if any(b is c for c, _ in defs)) + 1
+                tree.body.insert(idx, ast.copy_location(fn, defs[0][1]))
+                ast.fix_missing_locations(tree)
+                self.stats['idioms'] += 1
+                self.log.append(f'record-class member {name} ({kind}) of {", ".join(c.name for c, _ in defs)} turned into the helper {fname}')
+
+    def _new_record_fields_to_locals(self):
+        """A field with a default that was ADDED to a record class (not in the inventory) and is only reached through the one
+        instance a function creates (`state = _State()` ... `state.table[k]`) is that function's local again:
+        `table = {}` next to the construction, `state.table` -> `table`."""
+        for rel, tree in self.trees.items():
+            inv = self.inv.get(rel)
+            if inv is None:
+                continue
+            known = set(inv['constants'])
+            newf = {}
+            for c in tree.body:
+                if not isinstance(c, ast.ClassDef) or c.name not in inv['classes']:
+                    continue
+                for st in c.body:
+                    if isinstance(st, ast.AnnAssign) and isinstance(st.target, ast.Name) and st.value is not None and f'{c.name}.{st.target.id}' not in known:
+                        v = st.value
+                        init = None
+                        if isinstance(v, ast.Call) and (_dotted(v.func) or '').rsplit('.', 1)[-1] == 'field':
+                            df = next((k.value for k in v.keywords if k.arg == 'default_factory'), None)
+                            dv = next((k.value for k in v.keywords if k.arg == 'default'), None)
+                            if isinstance(df, ast.Name) and df.id in ('dict', 'list', 'set'):
+                                init = {'dict': ast.Dict(keys=[], values=[]), 'list': ast.List(elts=[], ctx=ast.Load()), 'set': ast.Call(func=ast.Name(id='set', ctx=ast.Load()), args=[], keywords=[])}[df.id]
+                            elif dv is not None and isinstance(dv, ast.Constant):
+                                init = dv
+                        elif isinstance(v, ast.Constant):
+                            init = v
+                        if init is not None:
+                            newf.setdefault(c.name, {})[st.target.id] = (c, st, init)
+            if not newf:
+                continue
+            for cname, fields in newf.items():
+                # every use of `.field` in the module must be on such a local instance
+                for fname, (c, st, init) in list(fields.items()):
+                    uses = [n for n in ast.walk(tree) if isinstance(n, ast.Attribute) and n.attr == fname]
+                    if not uses:
+                        continue
+                    funcs = [f for f in ast.walk(tree) if isinstance(f, FuncNode)]
+                    done = True
+                    plan = []
+                    for u in uses:
+                        if not (isinstance(u.value, ast.Name) and isinstance(u.ctx, ast.Load)):
+                            done = False
+                            break
+                        # the outermost function that binds the receiver by `recv = Cls()` without field arguments
+                        owner = None
+                        for f in funcs:
+                            if any(x is u for x in ast.walk(f)):
+                                binds = [a for a in _local_walk(f) if isinstance(a, ast.Assign) and len(a.targets) == 1 and isinstance(a.targets[0], ast.Name) and a.targets[0].id == u.value.id]
+                                if len(binds) == 1 and isinstance(binds[0].value, ast.Call) and isinstance(binds[0].value.func, ast.Name) and binds[0].value.func.id == cname and not any(k.arg == fname for k in binds[0].value.keywords) and not binds[0].value.args:
+                                    owner = (f, binds[0])
+                                    break
+                        if owner is None:
+                            done = False
+                            break
+                        plan.append((u, owner))
+                    if not done or not plan:
+                        continue
+                    for f, bind in {id(o[0]): o for _, o in plan}.values():
+                        names = {x.id for x in ast.walk(f) if isinstance(x, ast.Name)} | {a.arg for a in ast.walk(f) if isinstance(a, ast.arg)}
+                        local = fname if fname not in names else self._fresh(fname, names)
+                        for u, (f2, _b) in plan:
+                            if f2 is f:
+                                self._replace_everywhere(f, u, ast.copy_location(ast.Name(id=local, ctx=ast.Load()), u))
+                        # insert the local right after the construction
+                        for blk_owner in ast.walk(f):
+                            for fld in ('body', 'orelse', 'finalbody'):
+                                blk = getattr(blk_owner, fld, None)
+                                if isinstance(blk, list) and any(b is bind for b in blk):
+                                    i = next(k for k, b in enumerate(blk) if b is bind)
+                                    blk.insert(i + 1, ast.copy_location(ast.Assign(targets=[ast.Name(id=local, ctx=ast.Store())], value=copy.deepcopy(init)), bind))
+                    c.body = [b for b in c.body if b is not st] or [ast.Pass()]
+                    ast.fix_missing_locations(tree)
+                    self.stats['idioms'] += 1
+                    self.log.append(f'new field {cname}.{fname} turned back into a local of the function that creates the instance')
+
     def _expand_composed_decorators(self, tree):
         """`def deco(f): return A(B(f))` used as `@deco` is the decorator stack `@A` / `@B`."""
         composed = {}
@@ -3448,6 +3634,8 @@ class Normalizer:
             ast.fix_missing_locations(tree)
         self._rehome_moved_definitions()
         self._flatten_new_bases()
+        self._record_methods_to_functions()
+        self._new_record_fields_to_locals()
         self._positional_calls()
         self._reoutline()
         self._class_index()
